@@ -21,6 +21,7 @@ func init() {
 	vpRegister("c19_disjoint", vpH_c19_disjoint)
 	vpRegister("c19_warnings", vpH_c19_warnings)
 	vpRegister("c19_obs_extras", vpH_c19_obs_extras)
+	vpRegister("c19_calls", vpH_c19_calls)
 }
 
 func vpYStr(v string) *yaml.Node { return &yaml.Node{Kind: yaml.ScalarNode, Tag: "!!str", Value: v} }
@@ -260,4 +261,36 @@ func vpH_c19_obs_extras() {
 	vpAssert(e2 == nil && e1 == nil && vpJEqual(b1, b2), "marshalling twice gives the same JSON")
 	_, ye := yaml.Marshal(target)
 	vpAssert(ye == nil, "... and YAML marshalling afterwards still succeeds")
+}
+
+// Distinct pipelines share nothing through the library: what interpolating one
+// pipeline defines (its env block) is invisible to the interpolation of
+// another, whether the caller passes its own environment, a fresh one per
+// call, or none at all.
+func vpH_c19_calls() {
+	n1, n2 := vpStr(1, "A-B"), vpStr(1, "A-B")
+	v1 := vpStr(1, "x-z")
+	a := &Pipeline{Env: ordered.MapFromItems(ordered.TupleSS{Key: n1, Value: v1}), Steps: Steps{&CommandStep{Command: "a $" + n1}}}
+	b := &Pipeline{Steps: Steps{&CommandStep{Command: "b [$" + n2 + "]", Label: "l"}}}
+	mode := vpInt(0, 2)
+	var ea, eb InterpolationEnv
+	switch mode {
+	case 1:
+		ea, eb = env.New(), env.New()
+	case 2:
+		ea, eb = env.New(), nil
+	}
+	prefer := vpBool()
+	vpAssert(a.Interpolate(ea, prefer) == nil, "the first pipeline interpolates")
+	vpAssert(a.Steps[0].(*CommandStep).Command == "a "+v1, "the first pipeline sees its own env block")
+	vpAssert(b.Interpolate(eb, prefer) == nil, "the second pipeline interpolates")
+	vpAssert(b.Steps[0].(*CommandStep).Command == "b []", "a variable that only another pipeline defined is not defined for this one")
+	// and again, in the other order of objects: a third pipeline like the first
+	c := &Pipeline{Env: ordered.MapFromItems(ordered.TupleSS{Key: n1, Value: "$" + n2 + "!"}), Steps: Steps{&CommandStep{Command: "c $" + n1}}}
+	vpAssert(c.Interpolate(nil, prefer) == nil, "a third pipeline interpolates")
+	want := "c !"
+	if n1 == n2 {
+		want = "c !" // the block's own name is not yet defined while its value is expanded
+	}
+	vpAssert(c.Steps[0].(*CommandStep).Command == want, "earlier interpolations of other pipelines leave no definitions behind")
 }
